@@ -187,7 +187,11 @@ LEVEL_TEXT = ("Proof: Coq theorems (Properties/C17.v): the model of accumulator.
               "payload extraction) refines the abstract accumulator of the property for EVERY operation list over "
               "WritePacket/Reset/Bytes/Packets, every 188-byte packet and every predicate oracle; clause theorems (refused before "
               "the first unit start, restart on unit start, bytes = concatenated payloads, done exactly at the first packet after "
-              "which the predicate holds, predicate error propagated, refused after done, reset = new) and totality. By induction "
+              "which the predicate holds, predicate error propagated, refused after done, reset = new) and totality; the completion, "
+              "predicate-error, no-payload, refusal and reset clauses are also stated over ARBITRARY histories (Proofs/AccHistory.v: "
+              "C17_completion_invariant of every reachable state, C17_completion_step_iff / C17_accepted_step / "
+              "C17_pred_error_propagated / C17_no_payload_reported for one WritePacket from any reachable state, "
+              "C17_starting_refuses, C17_done_absorbs, C17_reset_fresh_history, C17_unit_shape). By induction "
               "over the operation list, no axioms. Tied to /repo on every run by executing model and real accumulator on all "
               "short histories and random long ones; goexec additionally checks the defensive copies.")
 LEVEL_NOTE = ("Trusted: Coq kernel; the transcription Model/Accumulator.v; extraction and glue. Partial: 'independent copy' and "
